@@ -87,7 +87,7 @@ ConnFaults(D, m, inst, c) ==
   IF ~HasFormal(D, inst.of, c.p) THEN {"connection_to_missing_port"} \cup tf
   ELSE IF tf # {} THEN tf
   ELSE LET f == Formal(D, inst.of, c.p) IN
-       IF c.t.k = "nc" THEN (IF inst.kind = "inst" THEN {} ELSE {"noconn_on_array_or_pair"})
+       IF c.t.k = "nc" THEN (IF inst.kind = "inst" \/ f.bund = "" THEN {} ELSE {"noconn_on_array_or_pair_bundle_port"})
        ELSE IF f.bund # ""
        THEN (IF ~IsBundleLike(D, m, c.t) THEN {"signal_to_bundle_port"}
              ELSE IF BLeaves(D, m, c.t) # LeafSet(D, f.bund) THEN {"bundle_mismatch"} ELSE {})
@@ -147,7 +147,7 @@ AnyLenient(D) == \E mn \in Reach(D, D.top, NMods(D)) : \E i \in Range(D.mods[mn]
                    \E k \in 1..Len(i.conns) : TermFaults(D, D.mods[mn], i.conns[k].t) = {} /\ Lenient(D, D.mods[mn], i.conns[k].t)
 
 (* rules whose violation C02 does not list among the faults that must be rejected: nothing is demanded of such designs *)
-Unlisted == {"noconn_in_concat", "noconn_in_anon_bundle", "noconn_on_array_or_pair", "slice_of_bundle", "bundle_in_concat",
+Unlisted == {"noconn_in_concat", "noconn_in_anon_bundle", "noconn_on_array_or_pair_bundle_port", "slice_of_bundle", "bundle_in_concat",
              "duplicate_connection", "empty_array", "duplicate_name"}
 
 Status(D) == LET f == FaultClauses(D) IN
